@@ -8,7 +8,7 @@ Definition holders (s : state) : list nat := hold_m (mpc s) ++ flat_map hold_w (
 
 (* the worker finished round R (or, for R = 0, has just been created) and waits for round R+1 *)
 Definition idle_b (R : nat) (w : worker) : bool :=
-  match wpc w with WStart => Nat.eqb (wround w) R | WWait => Nat.eqb (wround w) (S R) | _ => false end.
+  match wpc w with WStart => Nat.eqb (wround w) R | WWait | WBlock _ => Nat.eqb (wround w) (S R) | _ => false end.
 Definition idle_at (R : nat) (w : worker) : Prop := idle_b R w = true.
 Definition working_at (R : nat) (w : worker) : Prop :=
   wround w = R /\ match wpc w with WFetch | WGot _ | WSignal => True | _ => False end.
@@ -17,11 +17,15 @@ Definition PB (R : nat) (w : worker) : Prop :=
   (exists R0, R = S R0 /\ idle_at R0 w) \/ working_at R w \/ idle_at R w.
 Definition cnt (R : nat) (l : list worker) : nat := length (filter (idle_b R) l).
 Definition below (n : nat) (i : nat) : bool := Nat.ltb i n.
+(* the master is inside master_wait() (testing the counter or blocked) *)
+Definition waiting_b (p : mpc_t) : bool := match p with MWait | MBlock _ => true | _ => false end.
+(* the worker is inside worker_wait() *)
+Definition wb (p : wpc_t) : bool := match p with WWait | WBlock _ => true | _ => false end.
 
 Definition PhaseB (s : state) : Prop :=
   Forall (PB (wr s)) (ws s) /\ tc s = S (cnt (wr s) (ws s))
   /\ Permutation (applied s ++ filter (below (len s)) (holders s)) (seq 0 (Nat.min (ci s) (len s)))
-  /\ (forall i, mpc s = MGot i -> i < ci s) /\ (mpc s = MWait -> len s <= ci s).
+  /\ (forall i, mpc s = MGot i -> i < ci s) /\ (waiting_b (mpc s) = true -> len s <= ci s).
 
 Definition done_ok (s : state) : Prop := Forall (fun d => Permutation (snd d) (seq 0 (fst d))) (done s).
 
@@ -65,6 +69,7 @@ Proof.
   intros R w H. unfold idle_at, idle_b in *. destruct (wpc w); try reflexivity.
   - apply Nat.eqb_eq in H. apply Nat.eqb_neq. lia.
   - apply Nat.eqb_eq in H. apply Nat.eqb_neq. lia.
+  - apply Nat.eqb_eq in H. apply Nat.eqb_neq. lia.
 Qed.
 Lemma cnt_prev : forall R l, Forall (idle_at R) l -> cnt (S R) l = 0.
 Proof.
@@ -99,9 +104,45 @@ Qed.
 Ltac split_ws Hn l1 l2 Hl Hu :=
   destruct (upd_decomp _ _ _ Hn) as (l1 & l2 & Hl & Hu).
 
-Ltac simp := cbn [ci tc wr len mpc ws applied done todo fst snd hold_m app].
+Ltac simp := cbn [ci tc wr len mpc ws applied done todo fst snd hold_m app waiting_b].
 
-Lemma step_master_inv : forall s, Inv s -> Inv (step_master s).
+(* the master moves inside master_wait() (load+test <-> blocked): nothing observable changes *)
+Lemma set_mpc_wait_inv : forall s p, Inv s -> waiting_b (mpc s) = true -> waiting_b p = true -> Inv (set_mpc s p).
+Proof.
+  intros s p [Hd HI] Hw Hp. unfold Inv, set_mpc. simp. split; [exact Hd|].
+  assert (HB : PhaseB s) by (destruct (mpc s); try discriminate; exact HI).
+  assert (Hh : forall q, waiting_b q = true -> hold_m q = []) by (intros q Hq; destruct q; try discriminate; reflexivity).
+  destruct HB as (H1 & H2 & H3 & H4 & H5).
+  assert (G : PhaseB (mkS (ci s) (tc s) (wr s) (len s) p (ws s) (applied s) (done s) (todo s))).
+  { unfold PhaseB. simp. repeat split; try assumption.
+    - unfold holders in *. simp. rewrite (Hh _ Hw) in H3. rewrite (Hh _ Hp). exact H3.
+    - intros i Hi. rewrite Hi in Hp. discriminate.
+    - intros _. apply H5. exact Hw. }
+  destruct p; try discriminate; exact G.
+Qed.
+
+(* apply() returns from master_wait() having SEEN thread_counter >= num_workers *)
+Lemma master_return_inv : forall s, Inv s -> waiting_b (mpc s) = true -> S (length (ws s)) <= tc s -> Inv (master_return s).
+Proof.
+  intros s [Hd HI] Hw E.
+  assert (HB : PhaseB s) by (destruct (mpc s); try discriminate; exact HI).
+  destruct HB as (H1 & H2 & H3 & H4 & H5). specialize (H5 Hw).
+  assert (Hall : Forall (idle_at (wr s)) (ws s)).
+  { apply cnt_all. pose proof (filter_length_le (idle_b (wr s)) (ws s)). unfold cnt in *. lia. }
+  unfold master_return. split; simp; [|exact Hall]. constructor; [|exact Hd]. simp.
+  unfold holders in H3. replace (hold_m (mpc s)) with (@nil nat) in H3 by (destruct (mpc s); try discriminate; reflexivity).
+  cbn [app] in H3. rewrite (all_idle_hold _ _ Hall) in H3. cbn [filter] in H3.
+  rewrite app_nil_r in H3. replace (Nat.min (ci s) (len s)) with (len s) in H3 by lia. exact H3.
+Qed.
+
+(* the master's wait returns (for whatever reason, also spuriously): the `while` sends it back to the test *)
+Lemma wake_master_inv : forall s, Inv s -> Inv (wake_master as_written s).
+Proof.
+  intros s HI. unfold wake_master. destruct (mpc s) eqn:Em; try exact HI. cbn [m_loop as_written].
+  apply set_mpc_wait_inv; [exact HI|rewrite Em; reflexivity|reflexivity].
+Qed.
+
+Lemma step_master_inv : forall s, Inv s -> Inv (step_master as_written s).
 Proof.
   intros s [Hd HI]. unfold step_master. destruct (mpc s) eqn:Em.
   - (* MIdle *) destruct (todo s) as [|n r]; [split; [exact Hd|rewrite Em; exact HI]|].
@@ -125,14 +166,12 @@ Proof.
     + apply Nat.ltb_ge in E. unfold holders. simp.
       pose proof (got_drop (len s) [] (flat_map hold_w (ws s)) i ltac:(lia)) as Hg. cbn [app] in Hg. rewrite Hg in H3. exact H3.
     + intros _. apply Nat.ltb_ge in E. lia.
-  - (* MWait *) destruct HI as (H1 & H2 & H3 & H4 & H5).
-    destruct (Nat.leb (S (length (ws s))) (tc s)) eqn:E; [|split; [exact Hd|rewrite Em; repeat split; assumption]].
-    apply Nat.leb_le in E. specialize (H5 Em).
-    assert (Hall : Forall (idle_at (wr s)) (ws s)).
-    { apply cnt_all. pose proof (filter_length_le (idle_b (wr s)) (ws s)). unfold cnt in *. lia. }
-    split; simp; [|exact Hall]. constructor; [|exact Hd]. simp.
-    unfold holders in H3. rewrite Em in H3. cbn [hold_m app] in H3. rewrite (all_idle_hold _ _ Hall) in H3. cbn [filter] in H3.
-    rewrite app_nil_r in H3. replace (Nat.min (ci s) (len s)) with (len s) in H3 by lia. exact H3.
+  - (* MWait *) assert (HInv : Inv s) by (split; [exact Hd|rewrite Em; exact HI]).
+    destruct (Nat.leb (S (length (ws s))) (tc s)) eqn:E.
+    + apply Nat.leb_le in E. apply master_return_inv; [exact HInv|rewrite Em; reflexivity|exact E].
+    + apply set_mpc_wait_inv; [exact HInv|rewrite Em; reflexivity|reflexivity].
+  - (* MBlock *) assert (HInv : Inv s) by (split; [exact Hd|rewrite Em; exact HI]).
+    destruct (Nat.eqb (tc s) c); [exact HInv|]. apply wake_master_inv. exact HInv.
 Qed.
 
 Lemma PB_idle_prev_step : forall R w, PB R w -> wpc w = WStart -> PB R (mkW WWait (S (wround w))) /\
@@ -144,6 +183,20 @@ Proof.
     transitivity false; [apply Nat.eqb_neq; lia|symmetry; apply Nat.eqb_neq; lia].
   - apply Nat.eqb_eq in H. split; [right; right; apply Nat.eqb_eq; lia|].
     transitivity true; [apply Nat.eqb_eq; lia|symmetry; apply Nat.eqb_eq; lia].
+Qed.
+
+(* moving inside worker_wait() (load+test <-> blocked) keeps the worker where it is in the round protocol *)
+Lemma PB_wait_block : forall R w p', PB R w -> wb (wpc w) = true -> wb p' = true ->
+  PB R (mkW p' (wround w)) /\ idle_b R (mkW p' (wround w)) = idle_b R w /\ hold_w w = [] /\ hold_w (mkW p' (wround w)) = [].
+Proof.
+  intros R w p' H Hw Hp. unfold PB, idle_at, working_at, idle_b, hold_w in *.
+  destruct (wpc w); try discriminate; destruct p'; try discriminate; cbn [wpc wround];
+    (split; [|repeat split]);
+    (destruct H as [(R0 & -> & H)|[[_ []]|H]]; [left; exists R0; split; [reflexivity|exact H]|right; right; exact H]).
+Qed.
+Lemma idle_wait_block : forall R w p', idle_at R w -> wb (wpc w) = true -> wb p' = true -> idle_at R (mkW p' (wround w)).
+Proof.
+  intros R w p' H Hw Hp. unfold idle_at, idle_b in *. destruct (wpc w); try discriminate; destruct p'; try discriminate; exact H.
 Qed.
 
 Lemma cnt_split : forall R l1 w l2,
@@ -171,10 +224,31 @@ Proof.
   - intro Hm. specialize (H5 Hm). lia.
 Qed.
 
-Lemma step_worker_phaseB : forall s k, PhaseB s ->
-  PhaseB (step_worker s k) /\ mpc (step_worker s k) = mpc s /\ done (step_worker s k) = done s.
+Definition keeps_phaseB (f : state -> state) : Prop := forall s, PhaseB s ->
+  PhaseB (f s) /\ mpc (f s) = mpc s /\ done (f s) = done s.
+
+(* worker k moves inside worker_wait(): to the test when [p'] = WWait, into the blocking call when [p'] = WBlock _ *)
+Lemma wait_block_phaseB : forall s k w p', PhaseB s -> nth_error (ws s) k = Some w -> wb (wpc w) = true -> wb p' = true ->
+  PhaseB (set_w s k (mkW p' (wround w))).
 Proof.
-  intros s k HB. unfold step_worker. destruct (nth_error (ws s) k) as [w|] eqn:En; [|split; [exact HB|split; reflexivity]].
+  intros s k w p' HB En Hw Hp. unfold set_w. destruct (upd_decomp _ _ _ En) as (l1 & l2 & Hl & Hu).
+  pose proof HB as (H1 & H2 & H3 & H4 & H5).
+  assert (HPw : PB (wr s) w).
+  { rewrite Hl in H1. apply Forall_app in H1. destruct H1 as [_ F2]. inv F2. assumption. }
+  destruct (PB_wait_block _ _ p' HPw Hw Hp) as (P1 & P2 & P3 & P4). rewrite Hu.
+  apply (replace_worker s l1 w l2); try assumption; [rewrite P2; lia|lia|].
+  rewrite P4. unfold holders in H3. rewrite Hl, hold_split, app_assoc, P3 in H3. exact H3.
+Qed.
+Lemma wake_worker_phaseB : forall k, keeps_phaseB (fun s => wake_worker as_written s k).
+Proof.
+  intros k s HB. unfold wake_worker. destruct (nth_error (ws s) k) as [w|] eqn:En; [|split; [exact HB|split; reflexivity]].
+  destruct (wpc w) eqn:Ep; try (split; [exact HB|split; reflexivity]). cbn [w_loop as_written].
+  split; [|split; reflexivity]. apply wait_block_phaseB; [exact HB|exact En|rewrite Ep; reflexivity|reflexivity].
+Qed.
+
+Lemma step_worker_phaseB : forall k, keeps_phaseB (fun s => step_worker as_written s k).
+Proof.
+  intros k s HB. unfold step_worker. destruct (nth_error (ws s) k) as [w|] eqn:En; [|split; [exact HB|split; reflexivity]].
   split_ws En l1 l2 Hl Hu. pose proof HB as (H1 & H2 & H3 & H4 & H5).
   assert (Hw : PB (wr s) w).
   { rewrite Hl in H1. apply Forall_app in H1. destruct H1 as [_ F2]. inv F2. assumption. }
@@ -185,13 +259,15 @@ Proof.
   - (* WStart *) destruct (PB_idle_prev_step _ _ Hw Ep) as [P1 P2]. rewrite Hu. split; [|split; reflexivity].
     apply (replace_worker s l1 w l2); try assumption; [rewrite P2; lia|lia|].
     unfold hold_w in *. rewrite Ep in Hold. cbn [wpc]. exact Hold.
-  - (* WWait *) destruct (Nat.eqb (wr s) (wround w)) eqn:E; [|split; [exact HB|split; reflexivity]].
+  - (* WWait *) destruct (Nat.eqb (wr s) (wround w)) eqn:E;
+      [|split; [|split; reflexivity]; apply wait_block_phaseB; [exact HB|exact En|rewrite Ep; reflexivity|reflexivity]].
     apply Nat.eqb_eq in E. rewrite Hu. split; [|split; reflexivity].
     apply (replace_worker s l1 w l2); try assumption.
     + right. left. unfold working_at. cbn. split; [lia|exact I].
     + unfold idle_b. rewrite Ep. cbn [wpc wround]. replace (Nat.eqb (wround w) (S (wr s))) with false by (symmetry; apply Nat.eqb_neq; lia). lia.
     + lia.
     + unfold hold_w in *. rewrite Ep in Hold. cbn [wpc]. exact Hold.
+  - (* WBlock *) destruct (Nat.eqb (wr s) r); [split; [exact HB|split; reflexivity]|]. apply (wake_worker_phaseB k s HB).
   - (* WFetch *)
     assert (Hr : wround w = wr s).
     { destruct Hw as [(R0 & _ & Hi)|[[Hr _]|Hi]]; [| exact Hr |]; unfold idle_at, idle_b in Hi; rewrite Ep in Hi; discriminate. }
@@ -229,31 +305,60 @@ Proof.
 Qed.
 
 (* while the master is between two apply() calls (or publishing the next one) workers can only move to their wait *)
-Lemma step_worker_phaseA : forall s k, Forall (idle_at (wr s)) (ws s) ->
-  Forall (idle_at (wr s)) (ws (step_worker s k)) /\ mpc (step_worker s k) = mpc s /\ done (step_worker s k) = done s
-  /\ ci (step_worker s k) = ci s /\ tc (step_worker s k) = tc s /\ applied (step_worker s k) = applied s
-  /\ wr (step_worker s k) = wr s.
+Definition keeps_phaseA (f : state -> state) : Prop := forall s, Forall (idle_at (wr s)) (ws s) ->
+  Forall (idle_at (wr s)) (ws (f s)) /\ mpc (f s) = mpc s /\ done (f s) = done s
+  /\ ci (f s) = ci s /\ tc (f s) = tc s /\ applied (f s) = applied s /\ wr (f s) = wr s.
+
+Lemma wait_block_phaseA : forall s k w p', Forall (idle_at (wr s)) (ws s) -> nth_error (ws s) k = Some w ->
+  wb (wpc w) = true -> wb p' = true -> Forall (idle_at (wr s)) (upd k (mkW p' (wround w)) (ws s)).
 Proof.
-  intros s k HF. unfold step_worker. destruct (nth_error (ws s) k) as [w|] eqn:En; [|repeat split; exact HF].
+  intros s k w p' HF En Hw Hp. destruct (upd_decomp _ _ _ En) as (l1 & l2 & Hl & Hu). rewrite Hu.
+  rewrite Hl in HF. apply Forall_app in HF. destruct HF as [F1 F2]. inv F2.
+  apply Forall_app. split; [exact F1|]. constructor; [|assumption]. apply idle_wait_block; assumption.
+Qed.
+Lemma wake_worker_phaseA : forall k, keeps_phaseA (fun s => wake_worker as_written s k).
+Proof.
+  intros k s HF. unfold wake_worker. destruct (nth_error (ws s) k) as [w|] eqn:En; [|repeat split; exact HF].
+  destruct (wpc w) eqn:Ep; try (repeat split; exact HF). cbn [w_loop as_written]. unfold set_w. simp. repeat split.
+  apply wait_block_phaseA; [exact HF|exact En|rewrite Ep; reflexivity|reflexivity].
+Qed.
+Lemma step_worker_phaseA : forall k, keeps_phaseA (fun s => step_worker as_written s k).
+Proof.
+  intros k s HF. unfold step_worker. destruct (nth_error (ws s) k) as [w|] eqn:En; [|repeat split; exact HF].
   split_ws En l1 l2 Hl Hu. pose proof HF as HF'. rewrite Hl in HF'. apply Forall_app in HF'. destruct HF' as [F1 F2]. inv F2.
   unfold idle_at, idle_b in H1. destruct (wpc w) eqn:Ep; try discriminate.
   - cbn. repeat split. rewrite Hu. apply Forall_app. split; [exact F1|]. constructor; [|exact H2].
     unfold idle_at, idle_b. cbn. apply Nat.eqb_eq in H1. apply Nat.eqb_eq. lia.
   - apply Nat.eqb_eq in H1. replace (Nat.eqb (wr s) (wround w)) with false by (symmetry; apply Nat.eqb_neq; lia).
-    repeat split. exact HF.
+    unfold set_w. simp. repeat split.
+    apply wait_block_phaseA; [exact HF|exact En|rewrite Ep; reflexivity|reflexivity].
+  - destruct (Nat.eqb (wr s) r); [repeat split; exact HF|]. apply (wake_worker_phaseA k s HF).
 Qed.
 
-Lemma step_worker_inv : forall s k, Inv s -> Inv (step_worker s k).
+(* anything a worker does (a step, or a wait that returns) preserves the invariant *)
+Lemma worker_like_inv : forall f, keeps_phaseA f -> keeps_phaseB f -> forall s, Inv s -> Inv (f s).
 Proof.
-  intros s k [Hd HI]. unfold Inv, done_ok in *. destruct (mpc s) eqn:Em.
-  - destruct (step_worker_phaseA s k HI) as (A1 & A2 & A3 & A4 & A5 & A6 & A7). rewrite A2, A3, Em, A7. split; assumption.
-  - destruct HI as (H1 & H2 & H3). destruct (step_worker_phaseA s k H1) as (A1 & A2 & A3 & A4 & A5 & A6 & A7).
+  intros f FA FB s [Hd HI]. unfold Inv, done_ok in *. destruct (mpc s) eqn:Em.
+  - destruct (FA s HI) as (A1 & A2 & A3 & A4 & A5 & A6 & A7). rewrite A2, A3, Em, A7. split; assumption.
+  - destruct HI as (H1 & H2 & H3). destruct (FA s H1) as (A1 & A2 & A3 & A4 & A5 & A6 & A7).
     rewrite A2, A3, Em, A4, A6, A7. repeat split; assumption.
-  - destruct HI as (H1 & H2 & H3 & H4). destruct (step_worker_phaseA s k H1) as (A1 & A2 & A3 & A4 & A5 & A6 & A7).
+  - destruct HI as (H1 & H2 & H3 & H4). destruct (FA s H1) as (A1 & A2 & A3 & A4 & A5 & A6 & A7).
     rewrite A2, A3, Em, A4, A5, A6, A7. repeat split; assumption.
-  - destruct (step_worker_phaseB s k HI) as (B1 & B2 & B3). rewrite B2, B3, Em. split; assumption.
-  - destruct (step_worker_phaseB s k HI) as (B1 & B2 & B3). rewrite B2, B3, Em. split; assumption.
-  - destruct (step_worker_phaseB s k HI) as (B1 & B2 & B3). rewrite B2, B3, Em. split; assumption.
+  - destruct (FB s HI) as (B1 & B2 & B3). rewrite B2, B3, Em. split; assumption.
+  - destruct (FB s HI) as (B1 & B2 & B3). rewrite B2, B3, Em. split; assumption.
+  - destruct (FB s HI) as (B1 & B2 & B3). rewrite B2, B3, Em. split; assumption.
+  - destruct (FB s HI) as (B1 & B2 & B3). rewrite B2, B3, Em. split; assumption.
+Qed.
+Lemma step_worker_inv : forall s k, Inv s -> Inv (step_worker as_written s k).
+Proof. intros s k. apply (worker_like_inv _ (step_worker_phaseA k) (step_worker_phaseB k)). Qed.
+Lemma wake_worker_inv : forall s k, Inv s -> Inv (wake_worker as_written s k).
+Proof. intros s k. apply (worker_like_inv _ (wake_worker_phaseA k) (wake_worker_phaseB k)). Qed.
+
+(* one scheduler event, spurious wake-ups included *)
+Lemma step_inv : forall s e, Inv s -> Inv (step as_written s e).
+Proof.
+  intros s [[|k]|[|k]] HI; cbn [step];
+    [apply step_master_inv|apply step_worker_inv|apply wake_master_inv|apply wake_worker_inv]; exact HI.
 Qed.
 
 Lemma init_inv : forall nw applies, Inv (init nw applies).
@@ -263,8 +368,8 @@ Qed.
 
 Theorem run_inv : forall sched s, Inv s -> Inv (run sched s).
 Proof.
-  induction sched as [|t r IH]; intros s HI; [exact HI|]. cbn [run fold_left]. apply IH.
-  destruct t as [|k]; cbn [step]; [apply step_master_inv|apply step_worker_inv]; exact HI.
+  induction sched as [|e r IH]; intros s HI; [exact HI|]. unfold run, run_v in *. cbn [fold_left]. apply IH.
+  apply step_inv. exact HI.
 Qed.
 
 (** every completed apply() processed each of its elements exactly once, whatever the schedule *)
@@ -324,22 +429,88 @@ Qed.
 
 (* the completed apply() calls are the requested ones, in order *)
 Definition pending (s : state) : list nat := match mpc s with MIdle => [] | _ => [len s] end.
+Definition order_of (s : state) : list nat := rev (map fst (done s)) ++ pending s ++ todo s.
+Lemma wake_master_order : forall s, order_of (wake_master as_written s) = order_of s.
+Proof. intro s. unfold wake_master, order_of, pending. destruct (mpc s) eqn:Em; cbn; rewrite ?Em; reflexivity. Qed.
+Lemma wake_worker_order : forall s k, order_of (wake_worker as_written s k) = order_of s.
+Proof.
+  intros s k. unfold wake_worker, order_of, pending. destruct (nth_error (ws s) k) as [w|]; [|reflexivity].
+  destruct (wpc w); reflexivity.
+Qed.
+Lemma step_order : forall s e, order_of (step as_written s e) = order_of s.
+Proof.
+  intros s [[|k]|[|k]]; cbn [step]; [| |apply wake_master_order|apply wake_worker_order].
+  - unfold step_master. destruct (mpc s) eqn:Em; try (unfold order_of, pending; rewrite ?Em; reflexivity).
+    + unfold order_of, pending. destruct (todo s) eqn:Et; cbn; rewrite ?Em, ?Et; reflexivity.
+    + unfold order_of, pending. destruct (Nat.ltb i (len s)); cbn; rewrite ?Em; reflexivity.
+    + unfold order_of, pending, master_return, set_mpc. destruct (Nat.leb (S (length (ws s))) (tc s)); cbn; rewrite ?Em;
+        [rewrite <- app_assoc|]; reflexivity.
+    + destruct (Nat.eqb (tc s) c); [reflexivity|apply wake_master_order].
+  - unfold step_worker. destruct (nth_error (ws s) k) as [w|] eqn:En; [|reflexivity].
+    destruct (wpc w); try reflexivity.
+    + destruct (Nat.eqb (wr s) (wround w)); reflexivity.
+    + destruct (Nat.eqb (wr s) r); [reflexivity|apply wake_worker_order].
+    + destruct (Nat.ltb i (len s)); reflexivity.
+Qed.
 Theorem rounds_in_order : forall nw applies sched,
   let s := run sched (init nw applies) in
   rev (map fst (done s)) ++ pending s ++ todo s = applies.
 Proof.
   intros nw applies sched. cbn zeta.
-  assert (G : forall sched s, rev (map fst (done (run sched s))) ++ pending (run sched s) ++ todo (run sched s)
-                              = rev (map fst (done s)) ++ pending s ++ todo s).
-  { induction sched0 as [|t r IH]; intro s; [reflexivity|]. cbn [run fold_left]. fold (run r (step s t)). rewrite IH.
-    destruct t as [|k]; cbn [step].
-    - unfold step_master, pending. destruct (mpc s) eqn:Em; try reflexivity.
-      + destruct (todo s) eqn:Et; [rewrite Em; rewrite ?Et; reflexivity|]. cbn. rewrite ?Et. reflexivity.
-      + destruct (Nat.ltb i (len s)); reflexivity.
-      + destruct (Nat.leb (S (length (ws s))) (tc s)); [|rewrite Em; reflexivity]. cbn. rewrite <- app_assoc. reflexivity.
-    - unfold step_worker, pending. destruct (nth_error (ws s) k) as [w|]; [|reflexivity].
-      destruct (wpc w); try reflexivity.
-      + destruct (Nat.eqb (wr s) (wround w)); reflexivity.
-      + destruct (Nat.ltb i (len s)); reflexivity. }
-  rewrite G. reflexivity.
+  assert (G : forall sched s, order_of (run sched s) = order_of s).
+  { induction sched0 as [|e r IH]; intro s; [reflexivity|]. unfold run, run_v in *. cbn [fold_left]. rewrite IH. apply step_order. }
+  specialize (G sched (init nw applies)). unfold order_of in G. rewrite G. reflexivity.
+Qed.
+
+(** * the theorems are sensitive to the re-check: with a single, non-rechecked wait they fail *)
+(* 2 threads, one apply() on 2 elements.  The worker takes element 1 and is still inside the user function when the
+   master, having processed element 0, finds thread_counter = 1 < 2 and blocks; its wait returns spuriously (EINTR) and
+   apply() returns: element 1 has been processed 0 times, and the worker is still inside round 1. *)
+Definition single_master_wait : variant := mkV false true.
+Definition single_worker_wait : variant := mkV true false.
+Definition sched_eintr : list ev :=
+  [Step 0; Step 0; Step 0; Step 0; Step 1; Step 1; Step 1; Step 0; Step 0; Step 0; Step 0; Spurious 0].
+Lemma single_wait_eintr :
+  let s := run_v single_master_wait sched_eintr (init 2 [2]) in
+  mpc s = MIdle /\ done s = [(2, [0])] /\ ws s = [mkW (WGot 1) 1] /\ wr s = 1.
+Proof. vm_compute. repeat split. Qed.
+(* 3 threads, no spurious event at all: worker 1 finishes between the master's load of thread_counter (1) and its
+   futex_wait(&thread_counter, 1), which therefore returns at once (EAGAIN) while worker 2 still holds element 2 *)
+Definition sched_eagain : list ev :=
+  [Step 0; Step 0; Step 0; Step 1; Step 1; Step 2; Step 2; Step 0; Step 1; Step 2; Step 0; Step 0; Step 0; Step 0;
+   Step 1; Step 1; Step 1; Step 1; Step 0].
+Lemma single_wait_eagain :
+  let s := run_v single_master_wait sched_eagain (init 3 [3]) in
+  mpc s = MIdle /\ done s = [(3, [1; 0])] /\ nth_error (ws s) 1 = Some (mkW (WGot 2) 1).
+Proof. vm_compute. repeat split. Qed.
+
+Theorem each_once_single_wait_refuted : exists nw applies sched d,
+  In d (done (run_v single_master_wait sched (init nw applies))) /\
+  ~ Permutation (snd d) (seq 0 (fst d)) /\ counts (fst d) (snd d) <> repeat 1 (fst d).
+Proof.
+  exists 2, [2], sched_eintr, (2, [0]). destruct single_wait_eintr as (_ & Hd & _). split; [rewrite Hd; left; reflexivity|].
+  split; [intro H; apply Permutation_length in H; discriminate|vm_compute; discriminate].
+Qed.
+Theorem each_once_single_wait_refuted_no_spurious : exists nw applies sched d,
+  Forall (fun e => match e with Step _ => True | Spurious _ => False end) sched /\
+  In d (done (run_v single_master_wait sched (init nw applies))) /\ counts (fst d) (snd d) <> repeat 1 (fst d).
+Proof.
+  exists 3, [3], sched_eagain, (3, [1; 0]). destruct single_wait_eagain as (_ & Hd & _).
+  split; [repeat constructor|]. split; [rewrite Hd; left; reflexivity|vm_compute; discriminate].
+Qed.
+Theorem round_barrier_single_wait_refuted : exists nw applies sched,
+  let s := run_v single_master_wait sched (init nw applies) in
+  mpc s = MIdle /\ ~ Forall (idle_at (wr s)) (ws s).
+Proof.
+  exists 2, [2], sched_eintr. cbn zeta. destruct single_wait_eintr as (Hm & _ & Hw & Hr). split; [exact Hm|].
+  rewrite Hw, Hr. intro H. inv H. discriminate.
+Qed.
+(* the same for a worker that does not re-check work_round: woken spuriously before the first apply(), it processes
+   elements of a vector that does not exist yet / joins a round that was never published; in the model: the worker
+   signals round 0's counter, so that the next apply() can return while that worker has not even started its round *)
+Theorem round_barrier_single_worker_wait_refuted : exists nw applies sched,
+  let s := run_v single_worker_wait sched (init nw applies) in
+  mpc s = MIdle /\ ~ Forall (idle_at (wr s)) (ws s).
+Proof.
+  exists 2, [0], [Step 1; Step 1; Spurious 1]. cbn zeta. vm_compute. split; [reflexivity|]. intro H. inv H. discriminate.
 Qed.
